@@ -141,6 +141,27 @@ def run(prog, rep, tier, cfg):
     # ---- frozen provenance table of the partition / deadline / expiration-queue summaries (tables/prov_miner_partition.json)
     n = provtable.check(X, 'K10', 'summary', SPECS['miner_partition'], provtable.load_table('prov_miner_partition.json'), only_keys=None)
     rep.floor('K10', 'summary_update_sites', n, 200)
+    # ---- extension: every partition whose sectors were rescheduled is recorded under the new expiration epoch, so that the
+    # deadline's expiration queue names it (a partition missing there is never visited when those sectors expire)
+    EX = X.fn('Actor::extend_sector_expiration_inner', CR)
+    n_ext = 0
+    for g in prog.family(EX):
+        sets = [c for c in g.calls if (c.callee or '').endswith('::set') and not callee_is('BitField::set')(c) and len(c.args) >= 3 and has_atom(prog.narrow.operand(g, c.args[1]), 'F:ValidatedExpirationExtension.partition')
+                and any(callee_is('partition_state::Partition::replace_sectors')(q) for q in g.calls)]
+        if not sets:
+            continue
+        pushes = [c for c in g.calls if (c.callee or '').endswith('Vec::<T, A>::push') and has_atom(prog.narrow.operand(g, c.args[1]), 'F:ValidatedExpirationExtension.partition')]
+        heads = X.loop_heads(g)
+        for a in sets:
+            n_ext += 1
+            r = g.reach([t for (t, _l) in g.succ[a.bb]], blocked={p.bb for p in pushes} | g.errblocks)
+            ok = bool(pushes) and not (r & heads) and not any(g.blocks[b]['t'][0] == 'ret' for b in r)
+            rep.need('K7', 'extension:partition-recorded-under-new-epoch', ok,
+                     'after a partition\'s sectors were rescheduled the iteration cannot end without recording the partition under the declaration\'s new expiration (unconditionally)', X.loc(g, a.bb))
+        adds = [c for c in g.calls if callee_is('deadline_state::Deadline::add_expiration_partitions')(c)]
+        rep.need('K5', 'extension:queue-updated', len(adds) == 1 and result_fate(g, adds[0]) == 'try', 'the deadline expiration queue is told about the recorded partitions', X.loc(g))
+    rep.floor('K7', 'extension_partition_store_sites', n_ext, 1)
+
     # ---- running totals (amounts, power, datacap) accumulated in loops keep their earlier contributions
     X.accumulator_integrity('K12', 'running-totals', ['fil_actor_miner'], 'running totals of amounts')
     X.no_dropped_results('K14', 'results-not-discarded', ['fil_actor_miner'], 'no Result of a call is discarded')
